@@ -1555,6 +1555,103 @@ fn ring(n: usize, chords: usize) -> String {
     )
 }
 
+
+/// C15: a balanced ternary tree of `n` objects (node i adopts and owns 3i+1, 3i+2, 3i+3; every
+/// leaf adopts and owns a handle to the root), owned by a single outside handle to the root. A
+/// depth-first trace keeps a short worklist here, a breadth-first one a long worklist: together
+/// with the ring+chords shape (long worklist depth-first, short breadth-first) this exposes work
+/// that is superlinear in the worklist length whichever discipline the trace uses.
+fn tree(n: usize) -> String {
+    unsafe { crate::QUARANTINE = false };
+    reset_world(0);
+    let w_ = w();
+    w_.alive = vec![true; n];
+    w_.next_id = n as u32;
+    w_.shadow = Vec::new();
+    w_.fast = true;
+    let mk = |i: usize| Rc::new(Node { id: i as u32, script: NO_SCRIPT, slots: UnsafeCell::new(empty_slots()) });
+    let mut pending: Vec<Option<Rc<Node>>> = (0..n).map(|_| None).collect();
+    let mut hp: Vec<*const Rc<Node>> = vec![std::ptr::null(); n];
+    let mut leaves: Vec<usize> = Vec::new();
+    let mut edges = 0usize;
+    for i in (0..n).rev() {
+        let cur = mk(i);
+        let mut has_child = false;
+        for c in 0..3 {
+            let j = 3 * i + 1 + c;
+            if j < n {
+                has_child = true;
+                let ch = pending[j].take().unwrap();
+                unsafe {
+                    shim::adopt(&cur, &ch);
+                    let sp = std::ptr::addr_of_mut!((*cur.slots.get())[c]);
+                    std::ptr::write(sp, Slot::Strong(ch, j as u32));
+                    if let Slot::Strong(rc, _) = &*sp {
+                        hp[j] = rc as *const _;
+                    }
+                }
+                edges += 1;
+            }
+        }
+        if !has_child {
+            leaves.push(i);
+        }
+        pending[i] = Some(cur);
+    }
+    let first = pending[0].take().unwrap();
+    hp[0] = &first as *const _;
+    unsafe {
+        for &l in leaves.iter() {
+            if l == 0 {
+                continue;
+            }
+            let h = Rc::clone(&first);
+            shim::adopt(&*hp[l], &h);
+            (*(&(*hp[l])).slots.get())[3] = Slot::Strong(h, 0);
+            edges += 1;
+        }
+    }
+    let weak0 = Rc::downgrade(&first);
+    let w_ = w();
+    w_.traces = 0;
+    w_.pops = 0;
+    w_.visits = 0;
+    w_.dtor_log = Vec::with_capacity(n);
+    let marker = 0u8;
+    w_.sp_base = &marker as *const u8 as usize;
+    w_.sp_min = w_.sp_base;
+    let t0 = std::time::Instant::now();
+    drop(first);
+    let dt = t0.elapsed();
+    let w_ = w();
+    format!(
+        "tree n={} edges={} destroyed={} traces={} pops={} visits={} depth={} upgrade={} us={}",
+        n,
+        edges,
+        w_.dtor_log.len(),
+        w_.traces,
+        w_.pops,
+        w_.visits,
+        w_.sp_base.saturating_sub(w_.sp_min),
+        weak0.upgrade().is_some(),
+        dt.as_micros()
+    )
+}
+
+pub fn tree_main(args: &[String]) {
+    shim::install(hook);
+    let n: usize = args[2].parse().unwrap();
+    let stack: usize = args.get(3).and_then(|s| s.parse().ok()).unwrap_or(128 * 1024);
+    let h = std::thread::Builder::new().stack_size(stack).spawn(move || tree(n)).unwrap();
+    match h.join() {
+        Ok(s) => println!("{}", s),
+        Err(_) => {
+            println!("tree n={} FAILED", n);
+            std::process::exit(3);
+        }
+    }
+}
+
 // ----------------------------------------------------------------------- glue
 /// The API surface that merely delegates to `T` or to pointer identity
 /// (comparison, hashing, formatting, conversions, Weak raw round trips): not
